@@ -46,24 +46,36 @@ def build(env, kind, w):
 
 
 def goals_for(env, kind, m, x, y, signed, plus, neg, w1, w2):
+    """-> goals; each carries the check's OWN specification (direction and objective terms), so that the reference optimum does not
+    depend on what the goal object reports about itself (term(), signed, is_minimization_goal())"""
     from pysmt.optimization.goal import MinimizationGoal, MaximizationGoal, MinMaxGoal, MaxMinGoal, MaxSMTGoal
     base = kind.split("/")[1]
+
+    def spec(g, direction, terms, combine=None):
+        g.verif_dir = direction              # "min" / "max"
+        g.verif_terms = terms                # objective = combine(values of terms) (combine None: the single term)
+        g.verif_combine = combine
+        return g
     if base == "min-x":
-        return [MinimizationGoal(x, signed)]
+        return [spec(MinimizationGoal(x, signed), "min", [x])]
     if base == "max-x":
-        return [MaximizationGoal(x, signed)]
+        return [spec(MaximizationGoal(x, signed), "max", [x])]
     if base == "min-negx":
-        return [MinimizationGoal(neg(x), signed)]
+        t = neg(x)
+        return [spec(MinimizationGoal(t, signed), "min", [t])]
     if base == "max-negx":
-        return [MaximizationGoal(neg(x), signed)]
+        t = neg(x)
+        return [spec(MaximizationGoal(t, signed), "max", [t])]
     if base == "min-x+y":
-        return [MinimizationGoal(plus(x, y), signed)]
+        t = plus(x, y)
+        return [spec(MinimizationGoal(t, signed), "min", [t])]
     if base == "max-x+y":
-        return [MaximizationGoal(plus(x, y), signed)]
+        t = plus(x, y)
+        return [spec(MaximizationGoal(t, signed), "max", [t])]
     if base == "minmax":
-        return [MinMaxGoal([x, y], signed)]
+        return [spec(MinMaxGoal([x, y], signed), "min", [x, y], max)]
     if base == "maxmin":
-        return [MaxMinGoal([x, y], signed)]
+        return [spec(MaxMinGoal([x, y], signed), "max", [x, y], min)]
     if base in ("maxsmt", "maxsmt-inc"):
         g = MaxSMTGoal(real_weights=False)
         one = m.Int(1)
@@ -76,6 +88,7 @@ def goals_for(env, kind, m, x, y, signed, plus, neg, w1, w2):
         g.add_soft_clause(c2, m.Int(w2))
         g.verif_soft = [(c1, w1), (c2, w2)]          # the check's own record of the soft clauses (independent of g.term())
         g.verif_later = []
+        g.verif_dir = "max"
         if base == "maxsmt":
             g.add_soft_clause(c3, m.Int(1))
             g.verif_soft.append((c3, 1))
@@ -84,11 +97,12 @@ def goals_for(env, kind, m, x, y, signed, plus, neg, w1, w2):
             g.verif_later = [(c3, 2)]
         return [g]
     if base == "two":        # two objectives for boxed / lexicographic / pareto
-        return [MinimizationGoal(x, signed), MaximizationGoal(y, signed)]
+        return [spec(MinimizationGoal(x, signed), "min", [x]), spec(MaximizationGoal(y, signed), "max", [y])]
     if base == "two-same":
-        return [MaximizationGoal(x, signed), MaximizationGoal(y, signed)]
+        return [spec(MaximizationGoal(x, signed), "max", [x]), spec(MaximizationGoal(y, signed), "max", [y])]
     if base == "two-sum":
-        return [MinimizationGoal(plus(x, y), signed), MinimizationGoal(x, signed)]
+        t = plus(x, y)
+        return [spec(MinimizationGoal(t, signed), "min", [t]), spec(MinimizationGoal(x, signed), "min", [x])]
     raise ValueError(kind)
 
 
@@ -153,14 +167,15 @@ def opt_body(lo, hi, e, ylo, w1, w2, last, twin):
                 feas.append(it)
 
         def gval(g, it):
-            if g.is_maxsmt_goal():
+            if hasattr(g, "verif_soft"):
                 return sum(wt for cl, wt in g.verif_soft if refeval.evaluate(cl, it))
-            return value_of(g.term(), it, g.signed and not g.is_maxsmt_goal(), wbits)
+            vals = [value_of(t, it, signed, wbits) for t in g.verif_terms]
+            return vals[0] if g.verif_combine is None else g.verif_combine(vals)
 
-        def better(g, a, b):        # a strictly better than b
-            if g.is_minimization_goal():
+        def better(g, a, b):        # a strictly better than b, by the check's own record of the direction
+            if g.verif_dir == "min":
                 return a < b
-            return a > b            # maximisation, maxsmt
+            return a > b
         mode = PARAMS["mode"]
         strategy = PARAMS["strategy"]
         ok = True
@@ -171,7 +186,7 @@ def opt_body(lo, hi, e, ylo, w1, w2, last, twin):
 
         def as_num(node, g):
             if node.is_bv_constant():
-                return node.bv_signed_value() if g.signed else node.bv_unsigned_value()
+                return node.bv_signed_value() if signed else node.bv_unsigned_value()
             return node.constant_value()
         if mode == "single":
             g = goals[0]
